@@ -65,10 +65,6 @@ package keylock
 // ---- sharded group: multi-key calls visit the shards in strictly ascending shard order ----
 //@ ghost grpShards int
 //@ opaque sortperm(i int) int
-//@ func funcval w.calKeyFn
-//@   trusted the field holds ReMap.SimpleIndex or ReMap.XHashIndex (range [0, shards) proved under C17); a function of the key alone
-//@   ensures 0 <= result && result < grpShards
-//@   modifies
 //@ func TKeyLockerGrp.calculateSortedMultiKeys
 //@   requires w != nil && grpShards == len(w.ls)
 //@   ensures #sorted forall i int, j int :: { result[i], result[j] } 0 <= i && i < j && j < len(result) ==> result[i].index < result[j].index
@@ -122,3 +118,19 @@ package keylock
 //@   modifies mapsof(d.lockMap), wrapLocker.readCount, wrapLocker.writeCount, region($alloc), region($held)
 //@   loop 1
 //@     invariant !held(d.locker)
+//
+// ---- sharded groups, single-key routing: a key always goes to the shard the group's index function names - the
+// same function the multi-key path uses (calKeyFn), so single-key and multi-key callers of one key meet at one locker ----
+//@ opaque gshard(key interface{}) int
+//@ func funcval w.calKeyFn
+//@   trusted the field holds ReMap.SimpleIndex or ReMap.XHashIndex (range [0, shards) proved under C17); a function of the key alone, named gshard
+//@   ensures result == gshard(key) && 0 <= result && result < grpShards
+//@   modifies
+//@ func TKeyLockerGrp.calculateKey
+//@   requires w != nil && grpShards == len(w.ls)
+//@   ensures #sameshard result == w.ls[gshard(any(key))] && 0 <= gshard(any(key)) && gshard(any(key)) < len(w.ls)
+//@   modifies
+//@ func KeyLockerGrp.calculateKey
+//@   requires w != nil && grpShards == len(w.ls)
+//@   ensures #sameshard result == w.ls[gshard(key)] && 0 <= gshard(key) && gshard(key) < len(w.ls)
+//@   modifies
